@@ -31,6 +31,8 @@ structure Graph.WF (g : Graph) : Prop where
   heads_lt : ∀ h ∈ g.heads, h < g.size
   size_pos : 0 < g.size
   size_le : g.size ≤ U32MAX
+  /-- a commit does not list the same parent twice -/
+  par_nodup : ∀ p, (g.par p).Nodup
 
 /-! ## vocabulary -/
 
@@ -71,6 +73,15 @@ def CoalesceOf (A B : Nat → Prop) (p : Nat) : Prop :=
 def ForkPointOf (g : Graph) (S : Nat → Prop) (p : Nat) : Prop :=
   (∃ x, S x) ∧ HeadsOf g (fun c => ∀ s, S s → Path g.par s c) p
 
+/-- `merge_point`: the commits of `V` (the visible universe) that descend from every member of
+`S`, minus those that have another such commit among their ancestors (empty for empty `S`) -/
+def MergePointOf (g : Graph) (V S : Nat → Prop) (p : Nat) : Prop :=
+  (∃ x, S x) ∧ RootsOf g (fun c => V c ∧ ∀ s, S s → Path g.par c s) p
+
+/-- `forks()`: visible commits with at least two visible children -/
+def ForksOf (g : Graph) (V : Nat → Prop) (p : Nat) : Prop :=
+  V p ∧ ∃ c₁ c₂, c₁ ≠ c₂ ∧ V c₁ ∧ V c₂ ∧ p ∈ g.par c₁ ∧ p ∈ g.par c₂
+
 /-! ## semantics of the evaluation plan (`ResolvedExpression`) -/
 
 mutual
@@ -91,6 +102,8 @@ def denoteR (g : Graph) : RExpr → Nat → Prop
            | some f => denoteP g f c)
   | .roots x => RootsOf g (denoteR g x)
   | .forkPoint x => ForkPointOf g (denoteR g x)
+  | .mergePoint r h => MergePointOf g (AncAll g (denoteR g h)) (denoteR g r)
+  | .forks h => ForksOf g (AncAll g (denoteR g h))
   | .latest x n => LatestOf g (denoteR g x) n
   | .coalesce a b => CoalesceOf (denoteR g a) (denoteR g b)
   | .union a b => fun p => denoteR g a p ∨ denoteR g b p
@@ -129,6 +142,8 @@ def denote (g : Graph) (vh : List Nat) : Expr → Nat → Prop
         AncOf g fp 0 none (denote g vh h) c ∧ ¬ AncAll g (denote g vh r) c ∧ denote g vh f c
   | .roots x => RootsOf g (denote g vh x)
   | .forkPoint x => ForkPointOf g (denote g vh x)
+  | .mergePoint x => MergePointOf g (AncAll g (· ∈ vh)) (denote g vh x)
+  | .forks => ForksOf g (AncAll g (· ∈ vh))
   | .latest x n => LatestOf g (denote g vh x) n
   | .coalesce a b => CoalesceOf (denote g vh a) (denote g vh b)
   | .notIn x => fun p => AncAll g (· ∈ vh) p ∧ ¬ denote g vh x p
@@ -151,6 +166,7 @@ def Expr.WF (g : Graph) : Expr → Prop
   | .headsRange r h _ f => r.WF g ∧ h.WF g ∧ f.WF g
   | .roots x => x.WF g
   | .forkPoint x => x.WF g
+  | .mergePoint x => x.WF g
   | .latest x _ => x.WF g
   | .coalesce a b => a.WF g ∧ b.WF g
   | .notIn x => x.WF g
